@@ -68,9 +68,18 @@ func c12Resolver(sources []map[string]any, defScheme bool) (*Resolver, error) {
 			return NewRetrievedFromYAML([]byte(v))
 		}}
 	})
+	// a source that equals an earlier one is given the SAME location string (the same file listed twice): the list of
+	// locations is merged position by position, whatever repeats in it
 	var uris []string
 	for i := range sources {
-		uris = append(uris, fmt.Sprintf("root:%d", i))
+		at := i
+		for j := 0; j < i; j++ {
+			if reflect.DeepEqual(sources[j], sources[i]) {
+				at = j
+				break
+			}
+		}
+		uris = append(uris, fmt.Sprintf("root:%d", at))
 	}
 	set := ResolverSettings{URIs: uris, ProviderFactories: []ProviderFactory{root, a}}
 	if defScheme {
